@@ -42,11 +42,12 @@ const (
 	CallSize
 	CallMMap
 	CallRead
+	CallMUnmap
 	NumCallKinds
 )
 
 func (k CallKind) String() string {
-	return [...]string{"write", "sync", "truncate", "size", "mmap", "read", "?"}[k]
+	return [...]string{"write", "sync", "truncate", "size", "mmap", "read", "munmap", "?"}[k]
 }
 
 // FaultMode selects how a call fails.
@@ -475,11 +476,33 @@ func (d *Disk) MMap(sz int) ([]byte, error) {
 	return v, nil
 }
 
+// dropView removes (and poisons) the view starting at b[0]; d.mu is held.
+func (d *Disk) dropView(b []byte) {
+	for i, v := range d.views {
+		if len(v) > 0 && len(b) > 0 && &v[0] == &b[0] {
+			d.views = append(d.views[:i], d.views[i+1:]...)
+			if d.poisonUnmap {
+				for j := range v {
+					v[j] = poisonUnmap
+				}
+			}
+			return
+		}
+	}
+}
+
 func (d *Disk) MUnmap(b []byte) error {
 	d.mu.Lock()
 	defer d.mu.Unlock()
-	if b == nil {
-		return nil
+	f := d.enter(CallMUnmap)
+	if len(b) == 0 {
+		// munmap(2) of an empty range fails with EINVAL (osfs passes the slice to unix.Munmap)
+		return txfile.VerifIOError("simdisk/munmap", false)
+	}
+	if f != nil {
+		// the mapping is gone nevertheless (the error is only reported)
+		defer d.dropView(b)
+		return d.ioErr("munmap", f)
 	}
 	for i, v := range d.views {
 		if len(v) > 0 && len(b) > 0 && &v[0] == &b[0] {
